@@ -415,7 +415,7 @@ End Bar.
 
 Theorem barendregt_prog_guard : forall p, frag_prog p = true -> barendregt p = true -> prog_guard p = true.
 Proof.
-  intros p Hf Hb. unfold prog_guard, frag_prog, barendregt in *. apply andb_prop in Hf. destruct Hf as [Hcm Hf]. rewrite Hcm. simpl.
+  intros p Hf Hb. unfold prog_guard, frag_prog, barendregt in *.
   rewrite forallb_forall in *.
   intros d Hd. specialize (Hf d Hd). specialize (Hb d Hd). unfold def_guard_b in Hf. unfold def_guard.
   apply andb_prop in Hf. destruct Hf as [Hf Hkeq]. apply andb_prop in Hf. destruct Hf as [Hf Hkd].
